@@ -117,3 +117,99 @@ def holders : List String := ["model", "mesh", "beam", "model.elastic", "self.ph
 def idOf (x : String) : Nat := holders.idxOf x
 
 end EasyFEAVerif.Sources
+
+/-! Value-based refinement of the observer wiring: a parameter assignment stores a VALUE; an implementation may want to skip
+the notification when "nothing changed". `notify old new` is that test (the current descriptor `_Parameter.__set__` always
+notifies: `notify = fun _ _ => true`). -/
+namespace EasyFEAVerif.Sources.V
+
+structure State where
+  val : Nat → Nat          -- value held by every parameter holder
+  cached : Nat → Nat       -- values the cached matrices were assembled from
+  needUpdate : Bool
+
+inductive Op where
+  | assign (o x : Nat)     -- holder `o` is assigned the value `x` through its descriptor
+  | read
+  deriving Repr
+
+def step (w : Wiring) (notify : Nat → Nat → Bool) (s : State) : Op → State
+  | .assign o x =>
+    { s with val := fun k => if k = o then x else s.val k,
+             needUpdate := s.needUpdate || (w.observed.contains o && notify (s.val o) x) }
+  | .read => if s.needUpdate then { s with cached := s.val, needUpdate := false } else s
+
+def run (w : Wiring) (notify : Nat → Nat → Bool) (s : State) (ops : List Op) : State := ops.foldl (step w notify) s
+
+def init : State := { val := fun _ => 0, cached := fun _ => 0, needUpdate := true }
+
+def Fresh (w : Wiring) (s : State) : Prop := ∀ d ∈ w.deps, s.cached d = s.val d
+
+def Coherent (w : Wiring) (s : State) : Prop := s.needUpdate = true ∨ Fresh w s
+
+/-- the notification may be skipped only when the value is exactly the one already held -/
+def Exact (notify : Nat → Nat → Bool) : Prop := ∀ a b, a ≠ b → notify a b = true
+
+theorem step_coherent (w : Wiring) (notify : Nat → Nat → Bool) (hw : ∀ d ∈ w.deps, d ∈ w.observed) (hn : Exact notify)
+    (s : State) (hc : Coherent w s) (op : Op) : Coherent w (step w notify s op) := by
+  cases op with
+  | assign o x =>
+    rcases hc with hc | hc
+    · left; simp [step, hc]
+    · by_cases hdep : o ∈ w.deps
+      · by_cases hx : s.val o = x
+        · -- same value: nothing to rebuild
+          right
+          intro d hd
+          by_cases hdo : d = o
+          · subst hdo; simp [step, hc d hd, hx]
+          · simp [step, hdo, hc d hd]
+        · left
+          have hobs : o ∈ w.observed := hw o hdep
+          simp [step, hobs, hn _ _ hx]
+      · right
+        intro d hd
+        have hdo : d ≠ o := fun h => hdep (h ▸ hd)
+        simp [step, hdo, hc d hd]
+  | read =>
+    simp only [step]
+    split
+    · right; intro d _; rfl
+    · exact hc
+
+/-- sufficiency: every dependency observed + an exact "unchanged" test ⇒ no history of assignments and reads serves stale matrices -/
+theorem read_fresh (w : Wiring) (notify : Nat → Nat → Bool) (hw : ∀ d ∈ w.deps, d ∈ w.observed) (hn : Exact notify) (ops : List Op) :
+    Fresh w (step w notify (run w notify init ops) .read) := by
+  have hc : Coherent w (run w notify init ops) := by
+    suffices H : ∀ (ops : List Op) (s : State), Coherent w s → Coherent w (run w notify s ops) from H ops init (Or.inl rfl)
+    intro ops
+    induction ops with
+    | nil => intro s h; exact h
+    | cons op ops ih => intro s h; exact ih _ (step_coherent w notify hw hn s h op)
+  simp only [step]
+  split
+  · intro d _; rfl
+  · rename_i h
+    rcases hc with hc | hc
+    · exact absurd hc h
+    · exact hc
+
+/-- necessity: a test that lets one real change through without notification (two different values `a ≠ b` judged "unchanged":
+a tolerance, or an identity test on an array edited in place) makes [assign a, read, assign b, read] stale -/
+theorem inexact_test_goes_stale (w : Wiring) (notify : Nat → Nat → Bool) (d a b : Nat) (hd : d ∈ w.deps) (hab : a ≠ b)
+    (hskip : notify a b = false) :
+    ¬ Fresh w (run w notify init [.assign d a, .read, .assign d b, .read]) := by
+  intro h
+  have := h d hd
+  by_cases hobs : d ∈ w.observed <;> simp [run, step, init, hobs, hskip] at this <;> exact hab this
+
+/-- the current descriptor always notifies -/
+theorem always_notify_exact : Exact (fun _ _ => true) := fun _ _ _ => rfl
+
+/-- `np.allclose`-like test on integers scaled by 1e5 (seed C11_H) is not exact -/
+example : ¬ Exact (fun a b => decide (a + 1 < b ∨ b + 1 < a)) := by
+  intro h
+  have := h 100000 100001 (by decide)
+  simp at this
+
+end EasyFEAVerif.Sources.V
